@@ -1507,6 +1507,8 @@ PIP_Decision_Node::solve(const PIP_Problem& pip,
     for (Constraint_System::const_iterator ci = cs.begin(),
            ci_end = cs.end(); ci != ci_end; ++ci) {
       Matrix<Row> ctx_copy(context);
+      // The constraint may mention the artificial parameters of this node.
+      add_artificial_parameters(ctx_copy, num_art_params);
       merge_assign(ctx_copy, Constraint_System(*ci), all_params);
       Row& last = ctx_copy[ctx_copy.num_rows()-1];
       complement_assign(last, last, 1);
